@@ -118,6 +118,11 @@ def as_int(v):
     return None
 
 
+OPS_TRAITS = {'std::ops::BitOr': ('bitor', 'BitOr'), 'std::ops::BitAnd': ('bitand', 'BitAnd'), 'std::ops::BitXor': ('bitxor', 'BitXor'),
+              'std::ops::Add': ('add', 'Add'), 'std::ops::Sub': ('sub', 'Sub'), 'std::ops::Mul': ('mul', 'Mul')}
+PRIM_INTS = ('u8', 'u16', 'u32', 'u64', 'u128', 'usize', 'i8', 'i16', 'i32', 'i64', 'i128', 'isize')
+
+
 def std_transfer(I, fr, t, c, pth):
     r = _std_transfer(I, fr, t, c, pth)
     if r:
@@ -137,6 +142,17 @@ def _std_transfer(I, fr, t, c, pth):
     args = t['args']
     dest = t['dest']
     where = t['span']
+
+    # operator traits on primitive integers with reference operands (`acc | b` with b: &u8 is a call, not a MIR binop)
+    if trait in OPS_TRAITS and name == OPS_TRAITS[trait][0] and len(args) == 2 and (c.get('self_ty') or '').lstrip('&') in PRIM_INTS:
+        a_, b_ = fr.deref_operand(args[0]) if (c.get('self_ty') or '').startswith('&') else fr.operand(args[0]), fr.operand(args[1])
+        for _ in range(2):
+            if isinstance(b_, Ref):
+                b_ = fr._project(fr.store.get(b_.root, TOP), b_.proj)
+            if isinstance(a_, Ref):
+                a_ = fr._project(fr.store.get(a_.root, TOP), a_.proj)
+        I._assign(fr, {'k': 'assign', 'place': dest, 'rv': {'k': 'binop', 'op': OPS_TRAITS[trait][1], 'a': ['v', a_], 'b': ['v', b_]}})
+        return True
 
     # ------------------------------------------------------------------ closures called directly
     if trait in ('std::ops::Fn', 'std::ops::FnMut', 'std::ops::FnOnce') and name in ('call', 'call_mut', 'call_once') and len(args) == 2:
@@ -385,6 +401,37 @@ def _std_transfer(I, fr, t, c, pth):
                 fr.storev(dest, Agg([]))
                 return True
             return False
+        if name == 'try_for_each' and len(args) == 2:
+            # stops at the first item whose result is the second variant (Err / None / Break); the closure may have several
+            # paths (the calling path forks, see Interp.choose), an undecided result is decided by a choice of its own
+            itv = fr.deref_operand(args[0])
+            cl = I._closure_value(fr, args[1])
+            if is_iter(itv) and cl is not None:
+                it_ = itv
+                stop = None
+                for _ in range(100000):
+                    v, it_ = I._iter_next(it_, where)
+                    if v.tag != 'some':
+                        break
+                    cl = I._closure_value(fr, args[1])
+                    r = I._call_closure_rw(fr, cl[0], cl[1], [v.payload], where)
+                    o = two_variant(r, True)
+                    if o is None:
+                        raise NotDerivable('try_for_each closure result is not a modelled two-variant value', where)
+                    o = decide_variant(I, o, where)
+                    if o.tag == 'some':
+                        stop = r if not isinstance(r, Opt) else o
+                        break
+                fr.store_through(args[0], it_)
+                dty = fr.body.local_ty(dest['l']) if not dest['p'] else ''
+                if stop is not None:
+                    fr.storev(dest, stop)
+                elif dty.startswith('std::option::Option<'):
+                    fr.storev(dest, Opt('some', Agg([])))
+                else:
+                    fr.storev(dest, Opt('none', Agg([])))
+                return True
+            return False
         if name in ('all', 'any', 'find', 'position') and len(args) == 2:
             itv = fr.deref_operand(args[0])
             cl = I._closure_value(fr, args[1])
@@ -523,17 +570,16 @@ def _std_transfer(I, fr, t, c, pth):
             if o.tag == 'none':
                 fr.storev(dest, Opt('none', TOP, o.label))
                 return True
-            paths = I._call_closure_paths(fr, cl[0], cl[1], [o.payload], where)
-            if not paths:
-                return False
-            lab = o.label or ('option', where)
-            alts = [(Opt('some', r_, o.label), ([(lab, 1)] if o.tag is None else []) + list(p_.labels), list(p_.events)) for p_, r_ in paths]
             if o.tag is None:
-                alts.append((Opt('none', TOP, o.label), [(lab, 0)], []))
-            if len(alts) == 1:
-                fr.storev(dest, alts[0][0])
-                return True
-            return I.fork_alternatives(fr, t, pth, alts)
+                o = decide_variant(I, o, where)
+                if o.tag == 'none':
+                    fr.storev(dest, Opt('none', TOP, o.label))
+                    return True
+            # the closure runs in the caller's state (captured places are written back, its events and -- when it has
+            # several paths -- its branch labels become the calling path's)
+            r_ = I._call_closure_rw(fr, cl[0], cl[1], [o.payload], where)
+            fr.storev(dest, Opt('some', r_, o.label))
+            return True
         if m == 'unwrap_or' and len(args) == 2 and isinstance(o, Opt) and o.tag in ('some', 'none'):
             fr.storev(dest, o.payload if o.tag == 'some' else fr.operand(args[1]))
             return True
@@ -634,6 +680,27 @@ def _std_transfer(I, fr, t, c, pth):
             return False
     if name == 'collect' and trait == 'std::iter::Iterator' and len(args) == 1:
         itv = fr.operand(args[0])
+        dty = fr.body.local_ty(dest['l']) if not dest['p'] else ''
+        if is_iter(itv) and (dty.startswith('std::result::Result<std::vec::Vec<') or dty.startswith('std::option::Option<std::vec::Vec<')):
+            # FromIterator for Result<Vec<_>, E> / Option<Vec<_>>: consumes items up to and including the first Err / None
+            is_res = dty.startswith('std::result::Result<')
+            out = []
+            it_ = itv
+            for _ in range(100000):
+                v, it_ = I._iter_next(it_, where)
+                if v.tag != 'some':
+                    fr.storev(dest, Opt('none' if is_res else 'some', Agg(out, ('vec', 'Vec'))))
+                    return True
+                o = two_variant(v.payload, is_res)
+                if o is None:
+                    raise NotDerivable('collect into %s of items that are not modelled two-variant values (%r)' % ('Result' if is_res else 'Option', v.payload), where)
+                o = decide_variant(I, o, where)
+                good = (o.tag == 'none') if is_res else (o.tag == 'some')
+                if not good:
+                    fr.storev(dest, Opt('some', o.payload) if is_res else Opt('none', TOP))
+                    return True
+                out.append(o.payload)
+            raise NotDerivable('iterator did not terminate', where)
         if is_iter(itv):
             fr.storev(dest, Agg(drain(I, itv, where), ('vec', 'Vec')))
             return True
@@ -756,12 +823,30 @@ def two_variant(v, is_result):
     """Normalise an abstract Option / Result to an Opt (variant 0 = None / Ok, variant 1 = Some / Err)."""
     if isinstance(v, Opt):
         return v
+    if is_result and isinstance(v, tuple) and len(v) == 2 and v[0] == 'residual':
+        # what `?` returned from a function on its failure edge (FromResidual), kept symbolic by the stream models
+        return Opt('some', v)
     if isinstance(v, Agg) and v.kind and isinstance(v.kind[0], str):
         if v.kind[0].endswith('result::Result') and v.kind[1] in ('Ok', 'Err'):
             return Opt('none' if v.kind[1] == 'Ok' else 'some', v.items[0] if v.items else Agg([]))
         if v.kind[0].endswith('ops::ControlFlow') and v.kind[1] in ('Continue', 'Break'):
             return Opt('none' if v.kind[1] == 'Continue' else 'some', v.items[0] if v.items else Agg([]))
     return None
+
+
+def decide_variant(I, o, where):
+    """A decided copy of a two-variant value: an undecided one is decided by a nondeterministic choice of the model (the
+    calling path forks) and the choice is recorded under the value's own label."""
+    if o.tag in ('some', 'none'):
+        return o
+    j = I.choose(2, where)
+    cp_ = getattr(I, '_cur_path', None)
+    if cp_ is not None:
+        cp_.labels = cp_.labels + [(o.label if o.label is not None else 'two-variant@%s' % where, j)]
+    pl = o.payload
+    if isinstance(pl, Either):
+        pl = pl.pick(j)
+    return Opt('some' if j else 'none', pl, o.label)
 
 
 def side(o, variant):
